@@ -9,7 +9,11 @@ identical second copy, and the Lean model (`HappyModel/C05`: per-partition engin
 same input.  Compared: per-entity delivery logs (time ns, kind) of the parallel and the sequential
 run up to `end_time` (order inside one timestamp canonicalised), the number of "Time travel
 detected" warnings, cross-partition emitted / injected counts, the number of windows, and the
-error class for rejected configurations.  The Lean Spec (`HappyModel/C05/Spec.lean`) judges the
+error class for rejected configurations.  Family `wake` (`gen_wake`) and the timing mutations of the
+failing-input search (`mutate`, `splice_burst`) exercise "partitions that are idle across several
+windows": bursts that start anywhere inside a window after a quiet stretch, messages that take exactly
+the link minimum, local deliveries around each arrival (Lean side: `HappyModel/C05/Idle.lean`,
+`HappyProofs/C05/Idle.lean` — which idle fast-forwards are sound and which are not).  The Lean Spec (`HappyModel/C05/Spec.lean`) judges the
 implementation's parallel-vs-sequential logs directly.
 """
 from __future__ import annotations
@@ -108,7 +112,13 @@ class C05(core.Property):
             "(some empty), directed links with latencies in {L, L+1ns, 2L, 3L}; window ∈ {default, L, L−1ns, L/2, L/3, wEff≠w values}; "
             "end ∈ {∞, k·w, k·w±1ns, values whose float round trip loses 1 ns}; init times and delays on / 1 ns before / after window "
             "boundaries, 0, 1 ns, exactly the link latency, many windows ahead; max_workers ∈ {1, N}, each run twice; "
+            "family wake: all partitions idle for m ∈ {2..20} windows, then bursts at m·w + off (off ∈ {0, 1, 2, w−1, w−2, w/2, w/2±1, w/4, 3w/4, w/3, 2w/3, random}) "
+            "whose cross-partition messages take exactly the link minimum (or +1 ns, +w/4, +w/2, +w) with local deliveries at the destination 1 ns before / at / "
+            "1 ns after / a fraction of a window after each arrival and on the next window boundary, optional replies; "
             "family invalid: window > min latency, reference without link, delay below min latency. "
+            "search after a disagreement: mutations re-grid instants inside their window, stretch / insert idle gaps (everything after an instant moves by "
+            "±1 ns, w/4, w/2, w/2+1, 3w/4, w−1, k·w + off), set cross delays to the exact link minimum, add local deliveries around cross arrivals, "
+            "splice a wake-up burst after the last scheduled event. "
             "non-trivial = at least one cross-partition event was exchanged; distinct = distinct case content")
     trusted_base = [
         "hv/props/c05.py harness entities (script handlers, delivery logs), canonicalisation of same-timestamp order",
@@ -130,6 +140,9 @@ class C05(core.Property):
         "the run returns with err = none: no router raised, the coordinator's min-latency validation passed at every barrier "
         "(= cross-partition delays respect the declared minimum), every window loop ran to completion (Halted; the code's loop has no fuel)",
         "Safe / ParInit initial state: clocks at start, scheduled events at or after start and scheduled on the partition owning their target, partition ids distinct, links point to existing partitions",
+        "sched_no_time_travel / idle_skip_safe (partitions idle across several windows): SchedOk — every window of the schedule satisfies "
+        "b ≤ we ≤ b + w and the coordinator's own checks, every idle skip moves the barrier to an instant not after any pending event "
+        "(idle_skip_round_unsafe: rounding to the nearest window instead violates this and loses an event); /repo's loop is the skip-free instance",
         "par_eq_seq_partial: EventDetermined (emissions are a function of the delivered event) and Ranked (finite programs)",
     ]
     partial_theorems = {
@@ -153,6 +166,8 @@ class C05(core.Property):
             return self.gen(rng, tier, family="boundary")
         if r == 4:
             return self.gen(rng, tier, family="idle")
+        if r in (5, 6):
+            return self.gen_wake(rng, tier)
         return self.gen(rng, tier, family="linked")
 
     def gen(self, rng, tier, family):
@@ -243,6 +258,99 @@ class C05(core.Property):
         if family == "invalid":
             self.break_case(case, rng, lat, lmin)
         return case
+
+    # offsets of an instant relative to the window grid, as fractions of the window / ±ns
+    @staticmethod
+    def grid_offsets(rng, w):
+        return [0, 0, 1, 2, max(0, w - 1), max(0, w - 2), w // 2, max(0, w // 2 - 1), w // 2 + 1, w // 4, (3 * w) // 4,
+                w // 3, (2 * w) // 3, rng.randrange(0, max(1, w))]
+
+    def gen_wake(self, rng, tier):
+        """family wake: every partition is idle for several windows, then a burst starts at an instant
+        that is not aligned with the window grid (gap = m·w + off, off anywhere in the window incl.
+        just below / at / just above the half window and 1 ns around a boundary): a sender delivers an
+        event and emits cross-partition messages that take exactly (or 1 ns / a fraction of a window
+        more than) the link's minimum latency; the destination partition has local deliveries just
+        before / at / just after each arrival and on the next window boundaries; optional replies.
+        Any coordinator that skips, merges or re-aligns windows over the idle stretch has to get all of
+        these right."""
+        nparts = rng.choice([2, 2, 2, 3, 3, 4])
+        nent = rng.randint(2, 5)
+        ents = [rng.randrange(nparts) for _ in range(nent)]
+        if len(set(ents)) == 1:
+            ents[-1] = (ents[0] + 1) % nparts
+        L = rng.choice([1_000_000, 10_000_000, 100_000_000, 100_000_000, 7_000_000, 29_000_000, 1_000, 65_000, 3_000_000])
+        used = sorted(set(ents))
+        links = []
+        for a in used:
+            for b in used:
+                if a != b:
+                    links.append([a, b, rng.choice([L, L, L, L + 1, 2 * L, 3 * L])])
+        if all(l[2] != L for l in links):
+            links[0][2] = L
+        # a few links that touch empty partitions
+        for a in range(nparts):
+            for b in range(nparts):
+                if a != b and (a not in used or b not in used) and rng.random() < 0.3:
+                    links.append([a, b, rng.choice([L, 2 * L])])
+        lmin = min(l[2] for l in links)
+        lat = {(a, b): l for a, b, l in links}
+        window = rng.choice([None, None, lmin, lmin, max(1000, lmin - 1), max(1000, (3 * lmin) // 4), max(1000, lmin // 2)])
+        w = window if window is not None else lmin
+        nk = rng.choice([3, 4, 5])
+        tick = nk - 1                       # a kind that never emits: purely local deliveries
+        prog = []
+        senders = rng.sample(range(nent), rng.randint(1, min(3, nent)))
+        for e in senders:
+            remote = [t for t in range(nent) if ents[t] != ents[e]]
+            if not remote:
+                continue
+            for _ in range(rng.choice([1, 1, 2])):
+                t = rng.choice(remote)
+                l = lat[(ents[e], ents[t])]
+                d = rng.choice([l, l, l, l, l + 1, l + w // 4, l + w // 2, l + w])
+                prog.append([e, 0, d, t, rng.randint(1, tick)])
+            if rng.random() < 0.3:
+                prog.append([e, 0, rng.choice([0, 1, w // 2, w, w - 1]), e, tick])
+        # replies / forwarding from the middle kinds (again with the exact minimum latency)
+        for e in range(nent):
+            for k in range(1, tick):
+                if rng.random() < 0.25:
+                    remote = [t for t in range(nent) if ents[t] != ents[e]]
+                    if remote:
+                        t = rng.choice(remote)
+                        l = lat[(ents[e], ents[t])]
+                        prog.append([e, k, rng.choice([l, l, l + 1, l + w // 2]), t, rng.randint(k + 1, tick)])
+        init = []
+        if rng.random() < 0.5:
+            init.append([0, rng.randrange(nent), tick])          # something at the start (boot)
+        k0 = 0
+        for _b in range(rng.randint(1, 3)):
+            m = rng.choice([2, 2, 3, 3, 4, 5, 6, 7, 10, 20])
+            off = rng.choice(self.grid_offsets(rng, w))
+            g = (k0 + m) * w + off
+            burst_end = g
+            for e in rng.sample(senders, rng.randint(1, len(senders))):
+                ge = g + rng.choice([0, 0, 0, 1, w // 4])
+                init.append([ge, e, 0])
+                for (e2, k2, d, t, k3) in prog:
+                    if e2 != e or k2 != 0 or ents[t] == ents[e]:
+                        continue
+                    arr = ge + d
+                    burst_end = max(burst_end, arr)
+                    # local deliveries at the destination around the arrival
+                    for _ in range(rng.choice([0, 1, 1, 2])):
+                        nxt = (arr // w + 1) * w          # next window boundary after the arrival
+                        dt = rng.choice([1, 1, 1, 2, 0, -1, w // 10 + 1, w // 4, nxt - arr, nxt - arr - 1, nxt - arr + 1,
+                                         rng.randrange(1, w + 1)])
+                        who = t if rng.random() < 0.6 else rng.choice([x for x in range(nent) if ents[x] == ents[t]])
+                        init.append([max(0, arr + dt), who, tick])
+                        burst_end = max(burst_end, arr + dt)
+            k0 = burst_end // w + 1
+        horizon = (k0 + 2) * w
+        end = rng.choice([None, None, horizon, horizon + 1, k0 * w, k0 * w + w // 2])
+        return dict(family="wake", nparts=nparts, ents=ents, links=links, window=window, end=end,
+                    prog=prog, init=init, reps=1)      # max_workers 1 and N, once each
 
     def break_case(self, case, rng, lat, lmin):
         nent = len(case["ents"])
@@ -395,23 +503,83 @@ class C05(core.Property):
             yield dict(case, end=None)
 
     def mutate(self, case, rng):
+        """timing mutations around window multiples (±1 ns, ±w/2, whole windows, re-gridding one
+        instant, shifting everything after an instant = inserting / stretching an idle gap), remote
+        delays set to exactly the link latency, a local delivery put just after a cross arrival"""
         c = dict(case)
         c["init"] = [list(x) for x in case["init"]]
         c["prog"] = [list(x) for x in case["prog"]]
-        w = case["window"] or min((l[2] for l in case["links"]), default=1_000_000)
+        lmin = min((l[2] for l in case["links"]), default=1_000_000)
+        w = case["window"] or lmin
+        ents = case["ents"]
+        lat = {(a, b): l for a, b, l in case["links"]}
+        kinds = [x[2] for x in c["init"]] + [x[4] for x in c["prog"]]
+        tick = max(kinds, default=0)
+        if rng.random() < 0.3:
+            self.splice_burst(c, rng, w, lat, tick)
         for _ in range(rng.randint(1, 3)):
             k = rng.random()
-            if k < 0.4 and c["init"]:
+            if k < 0.15 and c["init"]:
                 x = rng.choice(c["init"])
                 x[0] = max(0, x[0] + rng.choice([-1, 1, w, -w, w // 2]))
-            elif k < 0.6 and c["init"]:
+            elif k < 0.3 and c["init"]:
+                # re-grid one instant: same window index, another offset inside the window
+                x = rng.choice(c["init"])
+                x[0] = (x[0] // w + rng.choice([0, 0, 1, 2, 5])) * w + rng.choice(self.grid_offsets(rng, w))
+            elif k < 0.5 and c["init"]:
+                # stretch / insert an idle gap: everything from some instant on moves later
+                t0 = rng.choice(c["init"])[0]
+                dlt = rng.choice([1, w // 2, w // 2 + 1, w // 4, (3 * w) // 4, w - 1, w,
+                                  rng.choice([2, 3, 5, 10]) * w + rng.choice(self.grid_offsets(rng, w))])
+                for x in c["init"]:
+                    if x[0] >= t0:
+                        x[0] += dlt
+            elif k < 0.58 and c["init"]:
                 c["init"].append(list(rng.choice(c["init"])))
-            elif k < 0.9 and c["prog"]:
+            elif k < 0.7 and c["prog"]:
                 x = rng.choice(c["prog"])
                 x[2] = x[2] + rng.choice([0, 1, w, 2 * w])
+            elif k < 0.8 and c["prog"]:
+                # a cross-partition emit takes exactly the declared minimum
+                rem = [x for x in c["prog"] if (ents[x[0]], ents[x[3]]) in lat]
+                if rem:
+                    x = rng.choice(rem)
+                    x[2] = lat[(ents[x[0]], ents[x[3]])] + rng.choice([0, 0, 0, 1])
+            elif k < 0.95 and c["prog"] and c["init"]:
+                # a local delivery at the destination just before / at / after a cross arrival
+                cand = [(t + x[2], x[3]) for (t, e, kk) in c["init"] for x in c["prog"]
+                        if x[0] == e and x[1] == kk and ents[x[3]] != ents[e]]
+                if cand:
+                    arr, tgt = rng.choice(cand)
+                    nxt = (arr // w + 1) * w
+                    dt = rng.choice([1, 1, 2, 0, -1, w // 10 + 1, w // 4, nxt - arr, nxt - arr - 1, rng.randrange(1, w + 1)])
+                    c["init"].append([max(0, arr + dt), tgt, tick])
             elif c["end"] is not None:
                 c["end"] = max(1, c["end"] + rng.choice([-1, 1, w]))
         return c
+
+
+    def splice_burst(self, c, rng, w, lat, tick):
+        """append a wake-up burst to a case: after everything scheduled so far plus an idle stretch of
+        m windows and an offset inside the window, one existing cross-partition emit is triggered again
+        (its delay set to the link minimum) and its destination gets a local delivery near the arrival"""
+        ents = c["ents"]
+        rem = [x for x in c["prog"] if (ents[x[0]], ents[x[3]]) in lat]
+        if not rem:
+            return
+        x = rng.choice(rem)
+        if rng.random() < 0.7:
+            x[2] = lat[(ents[x[0]], ents[x[3]])]
+        last = max([t for t, _e, _k in c["init"]], default=0)
+        g = (last // w + rng.choice([2, 3, 4, 5, 7, 10])) * w + rng.choice(self.grid_offsets(rng, w))
+        c["init"].append([g, x[0], x[1]])
+        arr = g + x[2]
+        nxt = (arr // w + 1) * w
+        for _ in range(rng.choice([1, 1, 2])):
+            dt = rng.choice([1, 1, 2, w // 10 + 1, w // 4, nxt - arr, nxt - arr - 1, rng.randrange(1, w + 1)])
+            c["init"].append([arr + dt, x[3], tick])
+        if c["end"] is not None and c["end"] < arr + 2 * w:
+            c["end"] = rng.choice([None, arr + 2 * w])
 
 
 THEOREMS: list[str] = [
@@ -423,6 +591,10 @@ THEOREMS: list[str] = [
     "HappyModel.C05.independent_eq_separate",
     "HappyModel.C05.par_eq_seq_partial",
     "HappyModel.C05.no_time_travel_current_false",
+    "HappyModel.C05.idle_skip_safe",
+    "HappyModel.C05.idle_window_noop",
+    "HappyModel.C05.sched_no_time_travel",
+    "HappyModel.C05.idle_skip_round_unsafe",
 ]
 C05.theorems = THEOREMS
 PROPERTY = C05()
